@@ -748,6 +748,7 @@ def prof_C18(d, rng):
     d["pre_handler"] = rng.random() < 0.3
     d["p_clear_handlers"] = 0.3 if d["pre_handler"] else 0.1
     d["p_log_burst"] = rng.choice([0.0, 0.0, 0.0, 0.05])
+    d["p_hijack"] = rng.choice([0.0, 0.0, 0.03])
 
 
 def c14_probe(world, hist, pred, stats):
@@ -1024,7 +1025,7 @@ _reg("C11", c11_evaluate, c11_reproduce, "exploration",
 # --- C06: outline expansion -----------------------------------------------------
 def prof_C06(d, rng):
     d["opts"] = {"p_outline": rng.choice([0.5, 0.7, 0.9]), "p_rule": rng.choice([0.0, 0.3]),
-                 "p_doc": 0.25, "p_table": 0.3, "p_step_placeholder": 0.6,
+                 "p_doc": 0.25, "p_table": 0.3, "p_step_placeholder": 0.6, "allow_no_table_examples": True,
                  "p_background": rng.choice([0.0, 0.4])}
     d["steplib"] = "rich"
     d["table_mutation"] = rng.random() < 0.4
